@@ -1152,7 +1152,9 @@ def run(model, rep, tier):
     check_contraction_shapes(model, rep, oracle)
     check_result_shapes(model, rep, oracle)
     from rules.c06 import check_transfer, _OnlyRule
-    check_transfer(model, _OnlyRule(rep, {'R06.4': 'R07.15'}))   # the ranges of the index-producing nodes behind searchsorted/argsort/take
+    check_transfer(model, _OnlyRule(rep, {'R06.4': 'R07.15'}))
+    from rules.c06 import check_transfer_sound
+    check_transfer_sound(model, _OnlyRule(rep, {'R06.4': 'R07.15'}))   # the ranges of the index-producing nodes behind searchsorted/argsort/take
     check_namespace_table(model, rep, oracle)
     from rules import round4 as _r4
     rep.rule('R07.17', 'numpy.cross: axis overrides axisa, axisb and axisc; numeric.inv visits every matrix of a batch; slice.indices() components all used in function.py')
